@@ -87,7 +87,7 @@ Section Sim.
   Qed.
 
   (* --- what the side condition gives ------------------------------------------------------------ *)
-  Lemma side_parts : fresh_ok k P = true /\ forallb (ok_c k) (p_classes P) = true /\
+  Lemma side_parts : fresh_ok k P = true /\ forallb (ok_cb k) (p_classes P) = true /\
     forallb (fun d => ok_body k true (m_body d)) (p_funcs P) = true /\ forallb (ok_s k true) (p_main P) = true.
   Proof.
     pose proof Hside as H. unfold side in H.
@@ -97,8 +97,20 @@ Section Sim.
   Qed.
   Lemma side_fresh : fresh_ok k P = true.
   Proof. apply side_parts. Qed.
-  Lemma side_classes : forallb (ok_c k) (p_classes P) = true.
+  Lemma side_classes_b : forallb (ok_cb k) (p_classes P) = true.
   Proof. apply side_parts. Qed.
+  Lemma side_classes : forallb (ok_c k) (p_classes P) = true.
+  Proof.
+    pose proof side_classes_b as H. rewrite forallb_forall in *. intros x Hx. specialize (H x Hx).
+    unfold ok_cb in H. apply andb_true_iff in H. tauto.
+  Qed.
+  Lemma class_no_base cd c : find_c (p_classes P) c = Some cd -> c_base cd = None.
+  Proof.
+    intros H. apply find_c_In in H. destruct H as [H _].
+    pose proof side_classes_b as Hc. rewrite forallb_forall in Hc. specialize (Hc cd H).
+    unfold ok_cb, no_base in Hc. apply andb_true_iff in Hc. destruct Hc as [_ Hc].
+    destruct (c_base cd); [discriminate|reflexivity].
+  Qed.
   Lemma side_funcs : forallb (fun d => ok_body k true (m_body d)) (p_funcs P) = true.
   Proof. apply side_parts. Qed.
   Lemma side_main : forallb (ok_s k true) (p_main P) = true.
@@ -506,9 +518,14 @@ Qed.
 (* the freshness part of [side] is exactly "EncapsulateField does not refuse the accessor names" *)
 Lemma side_not_refused k P : side k P = true -> enc_refuses k P = false.
 Proof.
-  intros H. unfold enc_refuses. destruct (k_enc k) eqn:He; [|reflexivity]. cbn.
-  destruct (enc_facts k P H He) as [cd [Hc [G [S0 _]]]]. rewrite Hc. unfold absent. rewrite G, S0. reflexivity.
+  intros H. unfold enc_refuses. destruct (k_enc k) eqn:He; [|reflexivity]. cbn [andb class_has].
+  destruct (enc_facts k P H He) as [cd [Hc [G [S0 _]]]]. rewrite Hc.
+  rewrite (class_no_base k P H cd _ Hc). unfold absent. rewrite G, S0. reflexivity.
 Qed.
+
+(* an accessor defined only in a base class makes EncapsulateField refuse *)
+Lemma inherited_refused : enc_refuses w_cfg w_inherit = true /\ side w_cfg w_inherit = false.
+Proof. split; vm_compute; reflexivity. Qed.
 
 (* with the parenthesising code an augmented write needs no precedence condition *)
 Lemma ok_s_aug_paren k on tag p f op e :
